@@ -22,7 +22,7 @@ REGISTRY = {}
 
 class Obligation(object):
     def __init__(self, id, prop, fn, targets=(), assumptions=(), bounded=None, desc='',
-                 kind='vc', max_paths=20000, finite=None):
+                 kind='vc', max_paths=20000, finite=None, replay=True):
         self.id = id
         self.prop = prop
         self.fn = fn
@@ -33,6 +33,7 @@ class Obligation(object):
         self.kind = kind                # 'vc' | 'structural' | 'finite'
         self.max_paths = max_paths
         self.finite = finite
+        self.replay = replay            # False: inputs cannot be rebuilt natively (callee models observe the run)
 
 
 def obligation(id, prop=None, **kw):
@@ -353,6 +354,10 @@ def run_obligation(ob_id, opts):
                 entry, labs, err2, vals = last
                 if confirmed_entry is not None:
                     res['refuted'].append(confirmed_entry)
+                elif not ob.replay:
+                    entry['confirmed'] = False
+                    entry['note'] = 'obligation observes the run through callee models; no native replay exists'
+                    res['refuted'].append(entry)
                 elif is_loop_vc:
                     res['undecided'].append("%s: loop annotation not established/inductive for this code (counter-model "
                                             "is not a failing input): %s" % (chk.label, _json_safe(vals)))
@@ -371,7 +376,7 @@ def run_obligation(ob_id, opts):
                 path_ok = False
                 res['undecided'].append("%s: %s" % (chk.label, info))
         # CPython cross-check on a model of this path's condition
-        if path_ok and xcheck_budget > 0 and status == 'done' and path.checks:
+        if path_ok and xcheck_budget > 0 and status == 'done' and path.checks and ob.replay:
             xcheck_budget -= 1
             s = z3.Solver()
             s.set('timeout', timeout_ms)
